@@ -174,6 +174,38 @@ func (s *Safety) OnSign(w *World, i int, rec consensus.VerifSignRecord) {
 			if !justified {
 				w.Violate("C03:prevote-violates-lock", i, "node %d precommitted %s in round %d and prevotes %s in round %d without a later +2/3 prevote set for another value",
 					i, blockKey(lp.BlockID), lp.Round, blockKey(rec.BlockID), rec.Round)
+				// Agreement (C01): the inductive invariant behind it. If the abandoned block is DECIDABLE in the round of that
+				// precommit (precommits of correct validators for it in that round plus the whole Byzantine power exceed 2/3:
+				// the adversary can complete a commit for it at any correct node at any time), and the correct validators
+				// that are not held by a lock on it, together with the Byzantine power, exceed 2/3 as well (they can be led
+				// to a polka and a commit for another block: an unlocked correct validator prevotes a valid proposal), then
+				// a continuation of this very execution under the adversary's control ends in two different commits.
+				tot, byzP, sameP, freeP := int64(0), int64(0), int64(0), int64(0)
+				pk := fmt.Sprintf("%d|%d|vote%d", rec.Height, lp.Round, int32(kproto.PrecommitType))
+				for _, v := range vals.Validators {
+					tot += v.VotingPower
+					j := w.valIndexOfAddr(v.Address)
+					if j < 0 {
+						continue
+					}
+					if w.IsByz[j] {
+						byzP += v.VotingPower
+						continue
+					}
+					if r2, ok := s.obs(w, j).signed[pk]; ok && r2.BlockID.Equal(lp.BlockID) {
+						sameP += v.VotingPower
+					}
+					if w.Nodes[j] == nil || w.Nodes[j].Failed != nil {
+						continue
+					}
+					if lb := w.Nodes[j].RS().LockedBlock; lb == nil || !lb.HashesTo(lp.BlockID.Hash) {
+						freeP += v.VotingPower
+					}
+				}
+				if byzP*3 < tot && (sameP+byzP)*3 > tot*2 && (freeP+byzP)*3 > tot*2 {
+					w.Violate("C01:abandons-decidable-block", i, "node %d precommitted %s in round %d, which is decidable there (correct precommits %d + Byzantine power %d of %d), and now prevotes %s in round %d without a later +2/3 prevote set for another value, while correct validators with power %d are not held by a lock on it: the adversary can complete a commit for %s at one correct node and lead the others to commit another block",
+						i, blockKey(lp.BlockID), lp.Round, sameP, byzP, tot, blockKey(rec.BlockID), rec.Round, freeP, blockKey(lp.BlockID))
+				}
 			}
 		}
 	case rec.Type == int32(kproto.PrecommitType):
